@@ -78,7 +78,8 @@ def _c19(ctx):
 def _c36(ctx):
     lib.tlc(ctx, "mc_registry", "MC_Listener.tla",
             "MC_Listener_registry_thorough.cfg" if ctx.thorough else "MC_Listener_registry.cfg", workers=4, timeout=2400)
-    for cfg in ("MC_Listener_registry_no_lock.cfg", "MC_Listener_registry_no_reload.cfg", "MC_Listener_registry_unsorted.cfg"):
+    for cfg in ("MC_Listener_registry_no_lock.cfg", "MC_Listener_registry_no_reload.cfg", "MC_Listener_registry_unsorted.cfg",
+                "MC_Listener_registry_dec_load_store.cfg"):
         _reject(ctx, cfg, "is violated")
     beh = ctx.path("registry.ndjson")
     total = 0
